@@ -53,6 +53,99 @@ def explore(ctx, d, gates, inputs, depth, simulate=None, seed=0):
     return out
 
 
+def gaussian_vs_fock(ctx, pq, rng, quick):
+    """Gaussian <-> PureFock <-> Fock on TLC-generated lattice programs with active gates and attenuation.  The Gaussian state
+    itself is pinned to the exact spec by C07; here the photon-number statistics of the three simulators are compared on the
+    sectors the cutoff represents exactly: an active gate is admitted only on pristine (still vacuum) modes, attenuation only
+    after displacements (coherent states: the weight above the cutoff is < 1e-9)."""
+    import warnings
+    from .. import gaussian_replay as GR
+    d, cutoff = 2, 10
+    cat = []
+    for i in range(d):
+        for k in range(4):
+            cat.append(L.displacement(i, 1, 2, k))
+            cat.append(L.squeezing(i, "ln2", k))
+        cat.append(L.squeezing(i, "-ln2", 1))
+        cat.append(L.quadratic_phase(i, 1, 2))
+        for key in L.ATTEN:
+            cat.append(L.attenuator(i, key, 0))
+        cat.append(L.attenuator(i, "pi/4", 1))
+    for (i, j) in ((0, 1), (1, 0)):
+        cat.append(L.squeezing2(i, j, "ln2", 1))
+        cat.append(L.controlled_x(i, j, 1, 2))
+        for g in (L.beamsplitter(i, j, "pi/4", 1), L.beamsplitter(i, j, "atan(4/3)", 0), L.machzehnder(i, j, 1, 2), L.interferometer((i, j), "rot345")):
+            cat.append(L._from_passive(g))
+    cat.append(L._from_passive(L.phaseshifter(0, 3)))
+    gates = rng.sample(cat, 14 if quick else 24)
+    recs = GR.explore(ctx, d, gates, 3 if not quick else 2)
+    kept = 0
+    for rec in recs:
+        idx = [i - 1 for i in rec["hist"]]
+        if not idx:
+            continue
+        pristine = set(range(d))
+        only_disp = True
+        ok = True
+        has_att = False
+        for i in idx:
+            g = gates[i]
+            if g.get("chan"):
+                has_att = True
+                if not only_disp:
+                    ok = False
+                if "1)" in g["name"].split(",")[-1]:          # thermal attenuator: adds photons from the bath
+                    pass
+            elif not g["passive"]:
+                if not set(g["modes"]) <= pristine:
+                    ok = False
+                pristine -= set(g["modes"])
+                if not g["name"].startswith("Displacement"):
+                    only_disp = False
+                if has_att:
+                    ok = False
+            else:
+                if not set(g["modes"]) <= pristine:
+                    pristine -= set(g["modes"])
+        if not ok:
+            continue
+        kept += 1
+        names = [gates[i]["name"] + str(gates[i]["modes"]) for i in idx]
+        sig = "/".join(n.split("(")[0] for n in names)
+        tol = 1e-7 if has_att else 1e-9
+        for h in (L.HBARS if not quick else L.HBARS[:2] + L.HBARS[2:]):
+            hb = h[4]
+            ctx.case(("gauss-fock", tuple(names), hb))
+            with warnings.catch_warnings():
+                warnings.simplefilter("ignore")
+                try:
+                    def state_of(S):
+                        ins = [pq.Vacuum()] + [gates[i]["mk"](pq).on_modes(*gates[i]["modes"]) for i in idx]
+                        return S(d=d, config=pq.Config(hbar=hb, cutoff=cutoff)).execute(pq.Program(instructions=ins)).state
+                    sg, sf = state_of(pq.GaussianSimulator), state_of(pq.FockSimulator)
+                    pg = np.asarray(sg.fock_probabilities)
+                    pp = np.asarray(state_of(pq.PureFockSimulator).fock_probabilities) if not has_att else None
+                    pf = np.asarray(sf.fock_probabilities)
+                    # phase-sensitive comparison: the density matrices both simulators expose
+                    rg, rf = np.asarray(sg.density_matrix), np.asarray(sf.density_matrix)
+                    if rg.shape == rf.shape and np.abs(rg - rf).max() > max(tol, 1e-8):
+                        ctx.report(f"C01:gaussian-vs-Fock:density_matrix:{sig}:hbar={hb}", f"GaussianSimulator and FockSimulator density matrices differ after {names} (hbar={hb}): max deviation {np.abs(rg - rf).max():.3g}",
+                                   {"gates": names, "hbar": hb, "cutoff": cutoff})
+                except Exception as e:  # noqa
+                    ctx.report(f"C01:gauss-fock-raises:{type(e).__name__}:{sig}", f"{type(e).__name__}: {str(e)[:100]} for {names} (hbar={hb})", {"gates": names, "hbar": hb})
+                    continue
+            for label, other in (("PureFock", pp), ("Fock", pf)):
+                if other is None:
+                    continue
+                if np.abs(pg - other).max() > tol:
+                    j = int(np.argmax(np.abs(pg - other)))
+                    ctx.report(f"C01:gaussian-vs-{label}:{sig}:hbar={hb}", f"GaussianSimulator and {label}Simulator disagree on photon-number probabilities after {names} (hbar={hb}): "
+                               f"entry {j}: {pg[j]:.9f} vs {other[j]:.9f}", {"gates": names, "hbar": hb, "cutoff": cutoff})
+                    break
+        ctx.validated()
+    ctx.notes["gaussian_vs_fock_programs"] = kept
+
+
 def run(ctx):
     import piquasso as pq
     quick = ctx.tier == "quick"
@@ -90,5 +183,6 @@ def run(ctx):
             ctx.sample({"input": inp, "gates": [gates[i]["name"] + str(gates[i]["modes"]) for i in idx],
                         "exact_amplitudes": {str(k): [round(v.real, 6), round(v.imag, 6)] for k, v in list(amps.items())[:4]}})
     ctx.notes["states_replayed"] = total
+    gaussian_vs_fock(ctx, pq, rng, quick)
     ctx.assumptions += ["parameters restricted to the exact lattice (DESIGN 0.1); behaviour off the lattice is not seen",
                         "active (non number-conserving) gates and the Gaussian simulator are compared in the C07/C14 checks"]
